@@ -278,6 +278,23 @@ CLAIMS = {
         technique="static analysis: abstract evaluation + canonical-form comparison of the generated constraint schema against a reference schema (ast)",
         ref="DESIGN.md §3 C06",
     ),
+    "C07": dict(
+        text=(
+            "Decides C07 relative to reference schemas: division_connected_variable_groups (group_size absent, constant, per-vertex "
+            "list with None holes) and the _with_borders variant (auxiliary and primitive route) are evaluated abstractly on the "
+            "small graphs (<= 4 vertices); the canonicalised constraint set must equal the reference (root <=> rank 0, a root's id is "
+            "its own index, tree edges join different ranks / equal ids / equal totals, each non-root has exactly one lower tree "
+            "neighbour, downstream-size accounting with +1, roots' downstream = total, totals pinned to the requested sizes; border "
+            "flag <=> different ids; resp. one graph-division operator with the documented layout) and the group-id array must be "
+            "the one returned. Deviations are triaged by enumerating the projection onto the group ids / border flags against the "
+            "set of valid partitions (VIOLATION with witness, else undecided). (ALG-4D) grid form on four boards: each border "
+            "variable of the inner frame is attached to the edge between the two cells it separates, sizes row-major; plus native "
+            "gating (CFG-4) and operand layout/length guards (SGR-6)."
+        ),
+        note="Trusted: exactness of the reference schema (DESIGN.md C07), uniformity in the graph; abstract evaluator; documented meaning of graph-division.",
+        technique="static analysis: abstract evaluation + canonical-form comparison of the generated constraint schema against a reference schema (ast)",
+        ref="DESIGN.md §3 C07",
+    ),
 }
 
 NOT_APPLICABLE = {
